@@ -310,6 +310,79 @@ pub fn run_check(replay: Option<Value>) -> i32 {
         out.events = 1;
         Some(out)
     });
+    // far from the time origin with small steps (x0 = ±1e9, 500 steps of 2e-4): a time still identifies its
+    // own step; nothing in the segment lookup may scale with |t|
+    let fd = vec![dim("method", &M6.iter().map(|m| mname(*m)).collect::<Vec<_>>()), dim("direction", &["forward", "backward(reflected)"])];
+    lattice(&mut rep, "far", &fd, only.as_deref(), |key, idx| {
+        let m = M6[idx[0]];
+        let backward = idx[1] == 1;
+        let origin = 1e9;
+        let p0 = crate::problems::shift(&base(Base::Harmonic(2.0)), origin);
+        let p = if backward { reflect(&p0) } else { p0 };
+        let (x0, xend) = if backward { (-origin, -origin - 0.1) } else { (origin, origin + 0.1) };
+        let mut c = Cfg::new(m, x0, xend, &p.y0).tol(1e-6, 1e-8);
+        c.user_jac = true;
+        c.dense = true;
+        c.max_step = Some(2e-4);
+        // (RK4's fixed step; Radau's absolute default first step of 1e-6 is below its own step-size guard
+        // 0.1|h| > |x| eps at |x| = 1e9, so it is given a first step as well)
+        // (RK4's fixed step; Radau's absolute default first step of 1e-6 is below its own step-size guard
+        // 0.1|h| > |x| eps at |x| = 1e9, so it is given a first step as well)
+        if m == Method::RK4 || m == Method::RADAU {
+            c.first_step = Some(if backward { -2e-4 } else { 2e-4 });
+        }
+        let r = run(&p, &c);
+        let mut out = CaseOut::default();
+        out.events = r.st.n_ode;
+        let desc = json!({"key": key, "cfg": c.json(&p.name), "outcome": r.outcome_name()});
+        match r.sol() {
+            Some(s) if s.status == Status::Success && s.t.len() > 400 => {
+                // the abscissae themselves are only known to ulp(1e9) = 1.2e-7: allow |y'| * 8 ulp
+                let slack = 8.0 * crate::util::ulp(origin) * 2.5 + 64.0 * f64::EPSILON;
+                let mut worst: (f64, f64) = (0.0, 0.0);
+                for (t, y) in s.t.iter().zip(&s.y) {
+                    match s.sol(*t) {
+                        Ok(v) => {
+                            let d = v.iter().zip(y).fold(0.0f64, |a, (u, w)| a.max((u - w).abs()));
+                            if d > worst.0 {
+                                worst = (d, *t);
+                            }
+                        }
+                        Err(e) => {
+                            out.violations.push(Violation::new(key, "sample-not-covered", format!("sol({:e}) at a stored sample fails: {:?}", t, e), desc.clone()).with("method", mname(m)).with("api", "far-origin").with("backward", backward));
+                            break;
+                        }
+                    }
+                }
+                if std::env::var("VERIF_DEBUG").is_ok() {
+                    println!("DBG far {} b={} n={} worst mismatch {:e} at {:e}", mname(m), backward, s.t.len(), worst.0, worst.1);
+                }
+                if worst.0 > slack {
+                    out.violations.push(Violation::new(key, "sample-mismatch", format!("sol({:e}) differs from the stored sample by {:e} (allowed {:e}: eight ulp of the abscissa times |y'|)", worst.1, worst.0, slack), desc.clone()).with("method", mname(m)).with("api", "far-origin").with("backward", backward));
+                }
+                // a grid between the samples: against the exact solution
+                let mut werr: f64 = 0.0;
+                for k in 0..s.t.len() - 1 {
+                    let t = 0.5 * (s.t[k] + s.t[k + 1]);
+                    if let (Ok(v), Some(ex)) = (s.sol(t), p.exact(x0, &p.y0, t)) {
+                        werr = werr.max(v.iter().zip(&ex).fold(0.0f64, |a, (u, w)| a.max((u - w).abs())));
+                    }
+                }
+                // every step advances the state by h but the abscissa by fl(x + h): a drift of up to one ulp(x)
+                // per step that no solver can avoid
+                let drift = s.t.len() as f64 * crate::util::ulp(origin) * 2.5;
+                if werr > 1e-6 + drift {
+                    out.violations.push(Violation::new(key, "far-origin-accuracy", format!("sol at step midpoints is off by {:e}", werr), desc.clone()).with("method", mname(m)).with("api", "far-origin").with("backward", backward));
+                }
+                out.validated = s.t.len() as u64;
+                out.tag("far-origin");
+            }
+            _ => out.violations.push(Violation::new(key, "outcome", format!("far-origin run ended with {} ({} samples)", r.outcome_name(), r.sol().map(|s| s.t.len()).unwrap_or(0)), desc.clone()).with("method", mname(m)).with("api", "far-origin")),
+        }
+        out.fp = Some(r.st.fp.as_u128() ^ 0x77);
+        out.sample = Some(desc);
+        Some(out)
+    });
     if only.is_some() {
         for v in &rep.violations {
             println!("replay: VIOLATED [{}]: {}\n{}", v.sig["check"], v.msg, serde_json::to_string_pretty(&v.case).unwrap());
@@ -320,7 +393,7 @@ pub fn run_check(replay: Option<Value>) -> i32 {
         return if rep.violations.is_empty() { 0 } else { 1 };
     }
     rep.violations.extend(regress::violations_for("C06"));
-    for t in ["dense-run", "terminal-stop", "dense-disabled", "zero-length", "bdf-order-raise", "bdf-order-drop", "with-rejections", "dense-after-early-end", "dense-with-tiny-step", "zero-length-disabled"] {
+    for t in ["dense-run", "terminal-stop", "dense-disabled", "zero-length", "bdf-order-raise", "bdf-order-drop", "with-rejections", "dense-after-early-end", "dense-with-tiny-step", "zero-length-disabled", "far-origin"] {
         rep.require(t, 1);
     }
     rep.rule = "full product of the lattice; low-level runs: every accepted step's interpolant is evaluated at both ends and the midpoint inside the callback; solve_ivp runs: sol at every stored sample, on a 33-point grid over sol_span, 2e-12 left/right of every interior boundary, clearly outside, sol_many vs sol (sorted, reversed and interleaved batches), with and without a terminal event, with dense_output disabled, for runs that end early (max_steps=5, NeedLargerNMax) and for runs whose first accepted step is 2e-13 long; distinct = distinct RHS fingerprints x api".into();
